@@ -78,7 +78,38 @@ def decl(n, v=0):
         'static C%d Make(double x); double p; };' % (i, i, i, i, i, i) for i in range(n))
 
 
-FAMILIES = {'ns': ns, 'tt': tt, 'base': base, 'inst': inst, 'tdef': tdef, 'mix': mix, 'wide': wide}
+def args(d, v=0):
+    """d long (templated) arguments of one callable."""
+    a = ', '.join('const ns::V%d<W<int>, double>& a%d%s' % (i, i, ' = ns::V%d<W<int>, double>()' % i if v == 1 else '')
+                  for i in range(d))
+    return ['class A { void f(%s) const; };' % a, 'class A { A(%s); };' % a, 'void g(%s);' % a][v % 3]
+
+
+def enumr(d, v=0):
+    return 'enum class E { %s };' % ', '.join('value_number_%d' % i for i in range(4 * d))
+
+
+def instvals(d, v=0):
+    return 'template<T = {%s}> class A { T f(const T& x); };' % ', '.join('ns::I%d<double>' % i for i in range(2 * d))
+
+
+def overl(d, v=0):
+    return 'class A { %s };' % ' '.join('void f(int a%d, const ns::K%d& b);' % (i, i) for i in range(2 * d))
+
+
+def tdefs(d, v=0):
+    return 'template<T> class A { T f(); };\n' + '\n'.join('typedef A<ns::Q%d<int>> A%d;' % (i, i) for i in range(2 * d))
+
+
+def tparams(d, v=0):
+    return 'template<%s> class A { void f(); };' % ', '.join('T%d = {int, double}' % i for i in range(min(d, 8)))
+
+
+FAMILIES = {'ns': ns, 'tt': tt, 'base': base, 'inst': inst, 'tdef': tdef, 'mix': mix, 'wide': wide,
+            'args': args, 'enumr': enumr, 'instvals': instvals, 'overl': overl, 'tdefs': tdefs}
+# families whose size grows linearly with d (number of arguments, enumerators, list values, overloads, typedefs):
+# doubling d may at most triple the work
+LINEAR = ('args', 'enumr', 'instvals', 'overl', 'tdefs')
 
 
 def measure(text):
@@ -100,7 +131,7 @@ def worker(ctx):
     depths = [1, 2, 3, 4, 5, 6, 8, 10, 12] if tier == 'quick' else [1, 2, 3, 4, 5, 6, 8, 10, 12, 16, 20, 24, 32]
     jobs = []
     for fam in sorted(FAMILIES):
-        for v in range(1 if tier == 'quick' and fam not in ('ns', 'tt') else 3):
+        for v in range(1 if tier == 'quick' and fam not in ('ns', 'tt', 'args') else 3):
             jobs.append(('depth', fam, v))
     jobs.append(('size', 'decl', 0))
     nrand = 48 if tier == 'quick' else 800
@@ -132,6 +163,10 @@ def worker(ctx):
                 if d >= 3 and 2 * d in series and series[2 * d] > 6 * series[d]:
                     acc.violation({'kind': 'depth', 'family': fam, 'variant': v, 'd': d},
                                   {'what': 's(2d) > 6*s(d): super-polynomial growth', 'series': series})
+                    break
+                if fam in LINEAR and d >= 3 and 2 * d in series and series[2 * d] > 3 * series[d]:
+                    acc.violation({'kind': 'depth', 'family': fam, 'variant': v, 'd': d},
+                                  {'what': 's(2d) > 3*s(d) in a family whose size is linear in d', 'series': series})
                     break
             if ctx.index == 0 and idx == ctx.index:
                 acc.sample({'family': fam, 'steps_by_depth': series})
